@@ -3,7 +3,7 @@ CONSTANTS
   MaxSteps = 4
   Depth = 0
   OpNames = {"AddHeading", "SetStyle", "AddStyle", "ModifyStyle", "RemoveStyle", "GenerateTOC", "AutoGenerateTOC", "UpdateTOC", "TOCEntry", "ApplyTableStyle", "CreateCustomTableStyle", "AddListItem", "AddNote", "RemoveNote", "Save", "Reopen", "OpenForeign", "Markdown", "AddParagraph"}
-  Lv = {2, 5, 9}
+  Lv = {2, 9}
   Maxes = {3}
   StyIds = {"Quote", "C1", "Zz9"}
   AddIds = {"C1"}
@@ -12,7 +12,7 @@ CONSTANTS
   Tpls = {"TableGrid"}
   TblIds = {"ab", "TS1"}
   ListTypes = {"bullet", "number"}
-  Shapes = {"lists", "toc", "nostyles"}
+  Shapes = {"lists", "toc"}
   Kinds = {"all"}
   ViasC = {"AddStyle", "CreateQuickStyle"}
   HowsC = {"mutate", "replace"}
